@@ -28,8 +28,8 @@ def sh(cmd, cwd=None, env=None, timeout=3600):
     return p.returncode, p.stdout.decode("utf-8", "replace")
 
 
-def run_seed(sid, tier="quick", confirm=True, props=None):
-    sdir = os.path.join(VERIF, "seeded", sid)
+def run_seed(sid, tier="quick", confirm=True, props=None, benign=False):
+    sdir = os.path.join(VERIF, "seeded_benign" if benign else "seeded", sid)
     meta = json.load(open(os.path.join(sdir, "meta.json")))
     pid = meta.get("property", sid.split("_")[0])
     scratch = tempfile.mkdtemp(prefix="eqsig_seed_%s_" % sid, dir="/tmp")
@@ -52,6 +52,8 @@ def run_seed(sid, tier="quick", confirm=True, props=None):
         if confirm:
             rc1, out1 = sh([PY, os.path.join(sdir, "demo.py")], cwd=scratch, env=env)
             res["demo_fails_with_change"] = rc1 != 0
+            if benign and rc1 != 0:
+                res["demo_tail"] = out1.strip().splitlines()[-3:]
             rc2, out2 = sh([PY, "-m", "pytest", "-q", "-p", "no:cacheprovider", "tests"], cwd=scratch, env=env)
             res["tests_pass_with_change"] = rc2 == 0
             res["tests_tail"] = out2.strip().splitlines()[-1] if out2.strip() else ""
@@ -64,11 +66,30 @@ def run_seed(sid, tier="quick", confirm=True, props=None):
             res["checks"][p] = {"exit": rc3, "detected": rc3 == 1, "wall_s": round(time.time() - t0, 1),
                                 "lines": viol[:8], "tail": out3.strip().splitlines()[-1:] if rc3 != 1 else []}
         res["detected"] = any(c["detected"] for c in res["checks"].values())
+        if benign:
+            res["false_alarm"] = any(c["exit"] != 0 for c in res["checks"].values())
     finally:
         shutil.rmtree(scratch, ignore_errors=True)
     with open(os.path.join(sdir, "result.json"), "w") as f:
         json.dump(res, f, indent=1)
     return res
+
+
+def summary_benign():
+    rows = []
+    base = os.path.join(VERIF, "seeded_benign")
+    for sid in sorted(os.listdir(base)):
+        p = os.path.join(base, sid, "result.json")
+        if os.path.exists(p):
+            r = json.load(open(p))
+            m = json.load(open(os.path.join(base, sid, "meta.json")))
+            rows.append("| %s | %s | %s | %s | %s |" % (
+                sid, r["property"], (m.get("summary", "") or "")[:140].replace("|", "/").replace("\n", " "),
+                "yes" if r.get("tests_pass_with_change") else "?", "FALSE ALARM" if r.get("false_alarm") else "quiet (exit 0)"))
+    with open(os.path.join(base, "RESULTS.md"), "w") as f:
+        f.write("| change | property | property-preserving change | repo tests pass | check (quick) |\n|---|---|---|---|---|\n")
+        f.write("\n".join(rows) + "\n")
+    print("\n".join(rows))
 
 
 def summary():
@@ -95,8 +116,12 @@ if __name__ == "__main__":
     args = sys.argv[1:]
     tier = "quick"
     confirm = True
+    benign = False
+    if "--benign" in args:
+        benign = True
+        args.remove("--benign")
     if "--summary" in args:
-        summary()
+        summary_benign() if benign else summary()
         sys.exit(0)
     if "--tier" in args:
         i = args.index("--tier")
@@ -106,6 +131,10 @@ if __name__ == "__main__":
         confirm = False
         args.remove("--no-confirm")
     for sid in args:
-        r = run_seed(sid, tier, confirm)
+        r = run_seed(sid, tier, confirm, benign=benign)
+        if benign:
+            print(sid, "false_alarm=%s" % r.get("false_alarm"), {k: v for k, v in r.items() if k.startswith(("demo", "tests_pass", "patch_applies"))},
+                  [(c["lines"][:4], c["tail"]) for c in r.get("checks", {}).values() if c["exit"] != 0])
+            continue
         print(sid, "detected=%s" % r.get("detected"), {k: v for k, v in r.items() if k.startswith(("demo", "tests_pass", "patch_applies"))},
               [c["lines"][:2] for c in r.get("checks", {}).values()])
